@@ -53,7 +53,7 @@ def Params.production : Params where
   costPerFusionUnit := ZV.Gen.CostPerFusionUnitC
   fuseExpiration := ZV.Gen.FuseExpiration
   stakeMinAmount := ZV.Gen.StakeMinAmount
-  stakeTimeUnit := ZV.Gen.StakeTimeUnitSec
+  stakeTimeUnit := ZV.Gen.CtStakeTimeUnitSec
   stakeTimeMin := ZV.Gen.StakeTimeMinSec
   stakeTimeMax := ZV.Gen.StakeTimeMaxSec
   pillarStakeAmount := ZV.Gen.PillarStakeAmount
@@ -568,7 +568,7 @@ structure Liquidity where
 
 /-- getWeightedLiquidityStakeAmount: LiquidityStakeWeights[stakingTime / unit] * amount -/
 def weightedLiquidityStake (P : Params) (amount : Nat) (duration : Int) : Nat :=
-  ZV.Gen.LiquidityStakeWeights.getD (duration.tdiv P.stakeTimeUnit).toNat 0 * amount
+  ZV.Gen.CtLiquidityStakeWeights.getD (duration.tdiv P.stakeTimeUnit).toNat 0 * amount
 
 /-- LiquidityStakeMethod.ReceiveBlock: the first tuple of the sent token decides -/
 def liquidityStake (P : Params) (duration : Int) : Method Liquidity := fun s c =>
